@@ -97,8 +97,8 @@ func inSet(s Set, q uint32) bool {
 
 //@ func (s Set) Dynamic() (result bool)
 //@   props C15
-//@   requires canon(s)
-//@   ensures result == inSet(s, 0)
+//@   ensures result == (len(s) > 0 && s[len(s)-1].Stop == 0)
+//@   ensures canon(s) ==> result == inSet(s, 0)
 
 // Range.append enumerates a static range in ascending order behind nums.
 //
